@@ -3,6 +3,6 @@
 W=/tmp/w/$1/verif
 cd "$W" || exit 1
 find . -type f \( -path ./harness/target -o -path ./lean/.lake -o -path ./.git -o -path ./replay -o -path ./evidence -o -path ./lean/.audit \) -prune -o -type f -print \
- | grep -v "/target/\|/.lake/\|/.audit/\|__pycache__\|^./replay/\|^./evidence/\|/.lock-" | while read f; do
+ | grep -v "/target/\|/target-sk/\|/.lake/\|/.audit/\|__pycache__\|^./replay/\|^./evidence/\|/.lock-" | while read f; do
   if [ ! -e "/verif/$f" ]; then mkdir -p "/verif/$(dirname "$f")"; cp "$f" "/verif/$f"; echo "added $f"; fi
 done
